@@ -19,15 +19,15 @@ LEVEL = "exploration"
 TECHNIQUE = ("exhaustive sample-vector enumeration for the empirical p-value; recording/enumerating sampler seams (which parameter reaches which data slot; "
              "exactly enumerated Poisson toys through the real ToyCalculator); seeded smoke test of the trusted library samplers")
 PRELOAD = None
-LEVEL_TEXT = ("E1: all sample vectors of length <=5 over {0,1,2.5,7} (ties included) x observed values inside/outside the range: exact Fraction oracle. "
+LEVEL_TEXT = ("E1: all sample vectors of length <=5 over {-2,0,1,2.5,7} (ties and negative values included) x observed values inside/outside the range: exact Fraction oracle. "
               "E2: every spec with <=k deviations sampled through a recording sampler seam: shapes, and by value which rate / constraint parameter reaches "
               "which data slot. E3: the real ToyCalculator with an enumerating sampler (deterministic multiset = exact Poisson law quantised to 1/N): toy "
               "CL_s+b / CL_b must equal the exact tail sums within the quantisation bound, each sample set drawn at its own conditional fit. "
               "E4 (seeded, not exhaustive, labelled as such): moments of real pseudo-data and toy CLs within 6 sigma.")
 LEVEL_NOTE = "trusted base: scipy/torch/tfp/jax random samplers (smoke-tested only, E4); mc/ref/stats.py; the RNG stream itself is not enumerable"
 
-ALPH = [0.0, 1.0, 2.5, 7.0]
-OBS = [0.0, 1.0, 2.5, 7.0, -1.0, 0.5, 8.0]
+ALPH = [-2.0, 0.0, 1.0, 2.5, 7.0]
+OBS = [-3.0, -2.0, -1.0, 0.0, 1.0, 2.5, 7.0, 0.5, 8.0]
 
 
 def plan(tier, seed):
@@ -46,11 +46,14 @@ def plan(tier, seed):
             for nobs in ((44.0, 50.0, 58.0) if tier == "quick" else (40.0, 44.0, 50.0, 55.0, 58.0, 66.0)):
                 for mu in ((1.0,) if tier == "quick" else (0.5, 1.0, 2.0)):
                     cases.append({"kind": "E3", "model": mn, "grid": grid, "test_stat": ts, "nobs": nobs, "mu": mu})
+                    if mn == "onoff" and nobs in (44.0, 58.0):
+                        # the caller holds the nuisance constant: both hypotheses must be generated at that value
+                        cases.append({"kind": "E3", "model": mn, "grid": grid, "test_stat": ts, "nobs": nobs, "mu": mu, "fix_nuisance": 1.0})
     for be in backends:
         cases.append({"kind": "E4", "backend": be, "seed": seed})
     return dict(
         cases=cases, chunk=2,
-        rule="E1 case = (backend, length n): all 4^n sample vectors x 7 observed values; E2 case = (spec with <=k deviations, backend): points P1,P2 x sample "
+        rule="E1 case = (backend, length n): all 5^n sample vectors x 9 observed values; E2 case = (spec with <=k deviations, backend): points P1,P2 x sample "
              "shapes (),(3,),(2,2) x {unbatched, batch 2} x record modes; E3 case = (model, statistic, observed count, mu) with N=400/300 enumerated toys; "
              "E4 = seeded smoke test per backend (not exhaustive); non-trivial: p-values strictly between 0 and 1 observed / >=1 constraint term; distinct = distinct case",
         alphabet={"E1_values": ALPH, "E1_observed": OBS, "E3_models": ["poi1", "onoff"], "E3_grid": {"poi1": [400], "onoff": [20, 15]}},
@@ -175,10 +178,19 @@ def e3(case):
         if ts == "q":
             bounds[m.config.poi_index] = (-5.0, 10.0)
         poi_test = 0.0 if ts == "q0" else mu
-        ctx = dict(model=case["model"], test_stat=ts, nobs=case["nobs"], mu=mu)
+        ctx = dict(model=case["model"], test_stat=ts, nobs=case["nobs"], mu=mu, fix_nuisance=case.get("fix_nuisance"))
+        extra = {}
+        fixg = case.get("fix_nuisance")
+        if fixg is not None:
+            nidx = 1 - m.config.poi_index
+            init = m.config.suggested_init()
+            init[nidx] = fixg
+            fixed = m.config.suggested_fixed()
+            fixed[nidx] = True
+            extra = dict(init_pars=init, fixed_params=fixed)
         with seams.SamplerSeam("enumerate", grid=grid) as seam:
             res = pyhf.infer.hypotest(poi_test, C.tens(data), m, par_bounds=bounds, calctype="toybased", ntoys=ntoys, test_stat=ts, track_progress=False,
-                                      return_tail_probs=True, return_calculator=True)
+                                      return_tail_probs=True, return_calculator=True, **extra)
             draws = [e for e in seam.log]
         if ts == "q0":
             clsb, clb = float(res[0]), float(res[1][0])
@@ -194,13 +206,16 @@ def e3(case):
         exact = []
         qcache = {}
         for k, h in enumerate(hyps):
-            g = mdl.profile_nuis(h, data)
+            g = mdl.profile_nuis(h, data) if fixg is None else fixg
             want = [float(x) for x in mdl.expected_data(h, g if g is not None else 1.0)]
             got = [float(np.ravel(d["params"][0])[0]) for d in draws[k * nd:(k + 1) * nd]]
             if not np.allclose(got, want, rtol=2e-3):
                 issues.append(C.issue(f"C14:E3:hypothesis:{'s+b' if k == 0 else 'b'}", f"sample set {k} drawn at rates {got}, the conditional fit at mu={h} gives {want}", **ctx))
             # exact tail probability under this hypothesis, from the closed-form statistic, with the quantisation bound of the enumerated toys
             lam = want
+            if fixg is not None:
+                exact.append((0.0, 0.0))
+                continue
             qobs = (mdl.q0(data, bounds[m.config.poi_index])[0] if ts == "q0" else mdl.qmu(mu, data, bounds[m.config.poi_index])[0])
             supports = [np.unique(seams.enumerate_poisson(l, n)) for l, n in zip(lam, grid)]
             p_exact, quant = 0.0, 0.0
@@ -217,7 +232,7 @@ def e3(case):
                 ks, cnt = np.unique(vals, return_counts=True)
                 quant += float(np.sum(np.abs(cnt / n - sp.pmf(ks, l))) + (1 - np.sum(sp.pmf(ks, l))))
             exact.append((p_exact, quant))
-        for name, got, (pe, qb) in (("CLsb", clsb, exact[0]), ("CLb", clb, exact[1])):
+        for name, got, (pe, qb) in ((("CLsb", clsb, exact[0]), ("CLb", clb, exact[1])) if fixg is None else ()):
             ncmp += 1
             # ties at q == q_obs: the toy equal to the observation may fall on either side of a 1e-7 fit wobble -> allow its mass
             if not abs(got - pe) <= qb + 0.02:
